@@ -29,7 +29,7 @@ func init() {
 		NotDecided: "SQLite's own crash recovery.",
 		Run:        runC23})
 	register(&propDef{ID: "C24", Level: "other",
-		Decides:    "opening never damages an existing database: in migrate every refusal (newer user_version, partial schema, inspection error) is returned before any mutating call can have run; the legacy branch only sets user_version; each migration and its version bump share one transaction that is rolled back on error; the embedded migration SQL contains only non-destructive DDL (CREATE ... IF NOT EXISTS) and versions are contiguous from 1.",
+		Decides:    "opening never damages an existing database: in migrate every refusal (newer user_version, partial schema, inspection error) is returned before any mutating call can have run; the legacy branch only sets user_version; the two schema probes, executed in all 2^5 existence states of the objects migration 0001 creates (they observe the schema only through tableExists/indexExists), answer 'complete legacy schema' exactly when every object exists and 'partial' exactly when at least one does; each migration and its version bump share one transaction that is rolled back on error; the embedded migration SQL contains only non-destructive DDL (CREATE ... IF NOT EXISTS) and versions are contiguous from 1.",
 		NotDecided: "byte-identity of a refused file (opening in WAL mode is SQLite's business).",
 		Run:        runC24})
 
